@@ -309,7 +309,8 @@ pub fn cmd_xml_rand(args: &[String]) {
     let mut out = Out::create(&args[2]);
     for _ in 0..n {
         let complete = g.chance(3, 5);
-        let doc = rand_node(&mut g, 2, true, complete);
+        let depth = if g.chance(1, 4) { 2 } else { g.below(2) };
+        let doc = rand_node(&mut g, depth, true, complete);
         let o = observe(&doc);
         let mut line = json!({"ev": "Xml", "doc": doc});
         for (k, v) in o.as_object().unwrap() {
